@@ -165,6 +165,28 @@ impl<K: KeyEnc, T> Map<K, T> {
     pub fn has_key(&self, s: &Storage, k: K) -> (r: bool) ensures r == self.has(s, k) { unimplemented!() }
 }
 
+// ---- prefix iteration (ASSUMED model of `map.prefix((a, b)).range(store, None, None, Order::Ascending)`) ----
+/// all entries stored under the 2-component prefix `pb` of a map whose third key component is a u64,
+/// in ascending order of that component (cw-storage-plus encodes u64 big-endian, so byte order == numeric order)
+pub uninterp spec fn prefix_entries_u64<T>(kv: KV, ns: int, pb: Seq<u8>) -> Seq<(u64, T)>;
+pub broadcast axiom fn ax_prefix_entries_sound<T>(kv: KV, ns: int, pb: Seq<u8>, i: int)
+    requires 0 <= i < prefix_entries_u64::<T>(kv, ns, pb).len()
+    ensures kv.contains_key((ns, enc_pair(pb, enc_u64((#[trigger] prefix_entries_u64::<T>(kv, ns, pb)[i]).0)))),
+            de::<T>(kv[(ns, enc_pair(pb, enc_u64(prefix_entries_u64::<T>(kv, ns, pb)[i].0)))]) == prefix_entries_u64::<T>(kv, ns, pb)[i].1;
+pub broadcast axiom fn ax_prefix_entries_sorted<T>(kv: KV, ns: int, pb: Seq<u8>, i: int, j: int)
+    requires 0 <= i < j < prefix_entries_u64::<T>(kv, ns, pb).len()
+    ensures (#[trigger] prefix_entries_u64::<T>(kv, ns, pb)[i]).0 < (#[trigger] prefix_entries_u64::<T>(kv, ns, pb)[j]).0;
+pub axiom fn ax_prefix_entries_complete<T>(kv: KV, ns: int, pb: Seq<u8>, ts: u64)
+    requires kv.contains_key((ns, enc_pair(pb, enc_u64(ts))))
+    ensures exists|i: int| 0 <= i < prefix_entries_u64::<T>(kv, ns, pb).len() && (#[trigger] prefix_entries_u64::<T>(kv, ns, pb)[i]).0 == ts;
+pub enum Order { Ascending, Descending }
+/// D10 target: `MAP.prefix((a, b)).range(store, None, None, Order::Ascending).take(limit).collect::<StdResult<Vec<(u64, T)>>>()`
+#[verifier::external_body]
+pub fn verif_prefix_range_asc<A: KeyEnc, B: KeyEnc, T>(m: &Map<(A, B, u64), T>, s: &Storage, p: (A, B), limit: usize) -> (r: Result<Vec<(u64, T)>, StdError>)
+    ensures r is Ok ==> ({
+        let all = prefix_entries_u64::<T>(s.kv@, m.ns as int, enc_pair(p.0.key_bytes(), p.1.key_bytes()));
+        r->Ok_0@ =~= all.take(if all.len() <= limit { all.len() as int } else { limit as int })
+    }) { unimplemented!() }
 // cw2: contract version item (namespace "contract_info"; id = the extractor's R5 hash of that literal)
 pub spec const CW2_NS: int = 246209684066071int;
 pub uninterp spec fn cw2_bytes(name: Seq<char>, version: Seq<char>) -> Seq<u8>;
@@ -394,5 +416,5 @@ impl Response {
     #[verifier::external_body] pub fn set_data(self, d: Binary) -> (r: Response)
         ensures r.messages@ == self.messages@, r.data == Some(d) { unimplemented!() }
 }
-pub broadcast group group_cw_axioms { ax_string_ext, ax_mk_string, ax_de_ser, ax_dec_enc_key, ax_enc_str, ax_enc_u64, ax_enc_pair, ax_binary_mk, ax_binary_ext, ax_raw_bank_balance, ax_raw_smart, lemma_coins_view_empty, lemma_coins_view_one, ax_to_string_string, vstd::string::to_string_from_display_ensures_for_str }
+pub broadcast group group_cw_axioms { ax_string_ext, ax_mk_string, ax_de_ser, ax_dec_enc_key, ax_enc_str, ax_enc_u64, ax_enc_pair, ax_prefix_entries_sound, ax_prefix_entries_sorted, ax_binary_mk, ax_binary_ext, ax_raw_bank_balance, ax_raw_smart, lemma_coins_view_empty, lemma_coins_view_one, ax_to_string_string, vstd::string::to_string_from_display_ensures_for_str }
 //@broadcast group_cw_axioms
